@@ -48,6 +48,9 @@ func (h *havocSet) size() int {
 
 // runLoopInvariant cuts the loop at its header using the loop contract function.
 func (e *Engine) runLoopInvariant(fr *frame, li *loopInfo, spec *LoopSpec, arrivals []edgeState, deliver func(from, to *ssa.BasicBlock, st *State)) {
+	saveP := e.paths
+	e.paths = false // loops under contract are processed with joins; what leaves the loop continues in the harness's mode
+	defer func() { e.paths = saveP }()
 	initSt := e.enterBlock(li.header, arrivals)
 	if initSt == nil {
 		return
